@@ -26,6 +26,11 @@ func TestVerif(t *testing.T) {
 		// the part of "any system state" that is read at (re)initialisation: every RA of a
 		// re-established interface carries the hardware address found at that (re)initialisation
 		verifReinitState(t, r, out)
+		// "never alters the configuration": also not through the other consumers of the built RA
+		// (the consistency check of a neighbour's RA works on the RA the configuration produced)
+		for k := vfh.N(300, 6000); k > 0; k-- {
+			c12Live(t, r, out)
+		}
 	case "C04":
 		verifC04Paths(t, r, out)
 	case "C05":
@@ -61,10 +66,16 @@ func TestVerif(t *testing.T) {
 		// package's part of C11
 	case "C12":
 		verifC12(t, r, out)
+	case "C16":
+		// the countdown inside a running advertiser: every RA it transmits, the final one included
+		verifAdvCountdown(t, r, out)
 	case "C17":
 		verifC17(t, r, out)
 	case "C18":
 		verifC18(t, r, out)
+		// "the monitor never fails": its receive loop is the shared listener — no number or pattern
+		// of invalid messages may end it
+		verifC09(t, r, out)
 	case "C20":
 		verifC20(t, r, out)
 	default:
